@@ -32,20 +32,20 @@ ASSUMPTIONS = [
     "vector-fill! is exercised with two arguments only (marwood does not implement the optional range)",
 ]
 MANIFEST = dict(
-    text="35 Coq theorems over a hand-written model of the list/vector builtins (Model/ListVec.v, the repaired code): per "
+    text="43 Coq theorems over a hand-written model of the list/vector builtins (Model/ListVec.v, the repaired code): per "
          "builtin refinement to an abstract store of pair and vector locations (abs follows marwood's double indirection, a "
          "vector is identified by its Rc id), frame (pres / explicit 'every other location' clauses), store/retrieve "
          "identity through every alias from the invariant values_are_refs, append/reverse/vector->list allocate fresh "
-         "lists (aprefix), equal_spec on finite plain data, list? on finite chains; tied to /repo by 3-way differential "
+         "lists (aprefix), equal_spec on finite plain data, list? on finite chains and on circular lists; tied to /repo by 3-way differential "
          "runs (implementation / extracted model / vm_compute) of operation sequences over an aliased pool, with an "
          "independent Python reference store as oracle after every operation.",
     design="DESIGN.md section 5 C14",
     note="Trusted: Coq kernel, the hand-written model (sampling correspondence), extraction+OCaml driver (kernel "
          "cross-check on a sub-sample), Rust harness (incl. its Scheme node-budget probe), Python reference store. "
-         "Axioms: none (every theorem Closed under the global context). OPEN (Definitions in Props/C14.v, not claimed): "
-         "append_improper_stmt, is_list_circular_stmt (covered by interface 41 only), and every procedure of "
-         "Model/PreludeLists.v (length memq memv member assq assv assoc map for-each list c[ad][ad]r), which is a HAND "
-         "model of prelude.scm:147-258 validated by the correspondence and the reference oracle only. equal_spec assumes "
+         "Axioms: none (every theorem Closed under the global context). OPEN (visible in Props/C14.v, not claimed): "
+         "memq memv member assq assv assoc map for-each caar cdar cddr of Model/PreludeLists.v have no theorem; that "
+         "file is a HAND model of prelude.scm:147-258 validated by the correspondence and the reference oracle only "
+         "(list, length, cadr have theorems about the hand model, in a labelled section). equal_spec assumes "
          "interned symbols (C18). eq?/eqv? on distinct pairs with identical field cells / on equal strings are pinned to "
          "#t by the suite and not claimed. Circular data (length, equal?, display, error rendering) is C06's.",
     technique="Rocq/Coq proof (refinement to an abstract store, invariants, induction over finite chains) + "
